@@ -396,6 +396,18 @@ pub fn altered_proofs(p: &[u8; 20], full: bool) -> Vec<[u8; 20]> {
         rot.rotate_left(k);
         v.push(rot);
     }
+    // pairs of bytes swapped, and byte pairs changed by +1 / -1 (cancel under a wrapping-sum fold)
+    for i in 0..20 {
+        for j in (i + 1)..20 {
+            let mut x = *p;
+            x.swap(i, j);
+            v.push(x);
+            let mut y = *p;
+            y[i] = y[i].wrapping_add(1);
+            y[j] = y[j].wrapping_sub(1);
+            v.push(y);
+        }
+    }
     let mut rev = *p;
     rev.reverse();
     v.push(rev);
@@ -413,4 +425,66 @@ pub fn altered_proofs(p: &[u8; 20], full: bool) -> Vec<[u8; 20]> {
     v.sort();
     v.dedup();
     v
+}
+
+/// Client-side operand sets (B, x, a, u) at the seam whose base B - k*g^x (as the library computes
+/// it: k * (g^x mod N), NOT reduced) is a chosen small or special integer: -3..=3, -N-1..=-N+1,
+/// -2N, N-1 ..., with odd and even exponents. Built with the reference big integers.
+pub fn targeted_client_bases(seed: u64) -> Vec<([u8; 32], [u8; 20], [u8; 32], [u8; 20], String)> {
+    use refmodel::big::U;
+    let n = srp::n_builtin();
+    let two256 = {
+        let mut b = vec![0u8; 33];
+        b[32] = 1;
+        U::from_le_bytes(&b)
+    };
+    let mut out = vec![];
+    let mut xs_small = vec![]; // 3*(g^x mod N) < N
+    let mut xs_big = vec![]; // 3*(g^x mod N) >= 2N
+    let mut i = 0u64;
+    while (xs_small.len() < 2 || xs_big.len() < 2) && i < 10_000 {
+        let x = refmodel::ctr_array::<20>(seed, &format!("tb-x-{i}"));
+        let kgx = U::from_u64(3).mul(&U::from_u64(7).modpow(&U::from_le_bytes(&x), &n));
+        if kgx.cmp(&n) == std::cmp::Ordering::Less && xs_small.len() < 2 {
+            xs_small.push((x, kgx));
+        } else if kgx.cmp(&n.add(&n)) != std::cmp::Ordering::Less && xs_big.len() < 2 {
+            xs_big.push((x, kgx));
+        }
+        i += 1;
+    }
+    let mut u1 = [0u8; 20];
+    u1[0] = 1;
+    for (x, kgx) in xs_small.iter().chain(xs_big.iter()) {
+        // base = d  (B = kgx + d), base = d - N (B = kgx + d - N), base = d - 2N
+        for shift in 0..3u64 {
+            for d in -3i64..=3 {
+                let mut v = kgx.clone();
+                let mut ok = true;
+                for _ in 0..shift {
+                    if v.cmp(&n) == std::cmp::Ordering::Less {
+                        ok = false;
+                        break;
+                    }
+                    v = v.sub(&n);
+                }
+                if !ok {
+                    continue;
+                }
+                let b = if d >= 0 {
+                    v.add(&U::from_u64(d as u64))
+                } else if v.cmp(&U::from_u64((-d) as u64)) != std::cmp::Ordering::Less {
+                    v.sub(&U::from_u64((-d) as u64))
+                } else {
+                    continue;
+                };
+                if b.is_zero() || b == n || b.cmp(&two256) != std::cmp::Ordering::Less {
+                    continue;
+                }
+                for (a, u) in [(1u64, [0u8; 20]), (2, [0u8; 20]), (3, [0u8; 20]), (1, u1), (2, u1)] {
+                    out.push((b.to_le_padded::<32>(), *x, le32_from_u64(a), u, format!("base = {d} - {shift}*N, a = {a}, u = {}", u[0])));
+                }
+            }
+        }
+    }
+    out
 }
